@@ -14,7 +14,7 @@ def configs(r, quick):
     return flags, ident, ba
 
 
-def build_cases(ctx, nested=0.0, nschema=None, per=None, big=False):
+def build_cases(ctx, nested=0.0, nschema=None, per=None, big=False, gen_kw=None, depths=(2, 4, 6)):
     """returns list of cases: dict(tables, unions, root, tree, flags, ident, ba, lines=[...one per style])"""
     r = ctx.rng
     nschema = nschema or (50 if ctx.quick() else 700)
@@ -23,7 +23,7 @@ def build_cases(ctx, nested=0.0, nschema=None, per=None, big=False):
     for si in range(nschema):
         tabs, uns = vtree.random_schema(r, nested)
         for _ in range(per):
-            g = vtree.Gen(r, tabs, uns, maxdepth=r.choice([2, 4, 6]), big=big and r.random() < 0.1)
+            g = vtree.Gen(r, tabs, uns, maxdepth=r.choice(depths), big=big and r.random() < 0.1, **(gen_kw or {}))
             if r.random() < 0.1:
                 al = r.choice([1, 2, 4, 8, 16, 32]); size = al * r.randint(1, 3)
                 tree = vtree.Node("u", align=al, data=vtree.rbytes(r, size)); root = ("st", size, al)
@@ -86,11 +86,11 @@ def check_buffer(c, out):
     w = vtree.same(vtree.canon(c["tree"]), v)
     if w: return "read-back differs: " + w
     # sharing: vtables of nested buffers must lie inside them, parent objects outside
-    for (data, n, sd, root) in d.nested:
+    for (data, n, sd, root, ws) in d.nested:
         for (a, b, what) in d.spans:
-            if a < data + n and b > data and not (a >= data and b <= data + n) and what != "v":
-                return "object %s [%d,%d) straddles nested buffer [%d,%d)" % (what, a, b, data, data + n)
-    c["nested_found"] = [(root, bytes(buf[data:data + n])) for (data, n, sd, root) in d.nested]
+            if a < data + n and b > data and what != "v":
+                return "%s [%d,%d) of the enclosing buffer lies inside / across nested buffer [%d,%d): shared or overlapping" % (what, a, b, data, data + n)
+    c["nested_found"] = [(root, bytes(buf[data:data + n]), ws) for (data, n, sd, root, ws) in d.nested]
     return None
 
 
@@ -103,8 +103,8 @@ def verify_lines(c, out):
     root = rootname(c["root"])
     variant = "size" if c["flags"] & 1 else "plain"
     L = ["verify %s %s - 0 %s" % (root, variant, t[2])]
-    for (nroot, nb) in c.get("nested_found", []):       # every nested buffer, extracted, as a root of the nested type
-        L.append("verify %s plain - 0 %s" % (rootname(nroot), nb.hex() or "-"))
+    for (nroot, nb, ws) in c.get("nested_found", []):       # every nested buffer, extracted, as a root of the nested type
+        L.append("verify %s %s - 0 %s" % (rootname(nroot), "size" if ws else "plain", nb.hex() or "-"))
     if c["ident"] not in ("-", "00000000") and "00" not in [c["ident"][i:i + 2] for i in (0, 2, 4, 6)]:
         L.append("verify %s %s %s 0 %s" % (root, variant, c["ident"], t[2]))
     return L
